@@ -73,6 +73,40 @@ class C02(Property):
                 s.add("G.%d" % k)
             s.add("S.1")
             out.append(s.line())
+        # a RE-HANDSHAKE from an address still held as a peer (one-sided time-out: node 2, timeout 300 s, keeps its entries while nodes 1
+        # and 3, timeout 20 s, drop the silent node 2 and dial again once it is back; the first connection is older than the 60 s its
+        # handshake object lingers): afterwards payload flows both ways under the NEW connection, byte-identical, and whatever was
+        # captured under the superseded connection is delivered nowhere
+        for _ in range(10 if thorough else 2):
+            s = nu.Scenario()
+            al = rng.choice([nu.ALG, "-|3:43c80000", "-|2:43fa0000,1:3f800000"])
+            for i in (1, 2, 3):
+                s.node(i, mode="tun-router", pt=(300 if i == 2 else 20), claims=["%s/24" % bytes([10, 0, i, 0]).hex()], algos=al)
+            s.add("C.2.1", "A", "C.3.1", "A", "C.3.2", "A")
+            s.tick(62)
+            def payload(i, j):
+                f = nu.ipv4_packet(nu.node_ip(i), nu.node_ip(j), rb(rng, rng.choice([1, 8, 16, 100, 300, 1400])))
+                s.add("P.%d.%s" % (i, f), "A", "O.1", "O.2", "O.3")
+            for i, j in ((1, 2), (2, 1), (3, 2), (2, 3)):
+                payload(i, j)
+            s.add("M.2.1")
+            s.tick(rng.randrange(23, 30))
+            s.add("M.2.0")
+            s.tick(rng.randrange(4, 8))
+            s.add("X.9988")
+            pairs = [(1, 2), (2, 1), (3, 2), (2, 3), (1, 3)]
+            rng.shuffle(pairs)
+            for i, j in pairs:
+                payload(i, j)
+            for k in range(40):
+                for dst in (1, 2, 3):
+                    for src in (1, 2, 3):
+                        if rng.random() < (1.0 if thorough else 0.15):
+                            s.add("J.%d.%d.%d" % (k, dst, src), "O.%d" % dst)
+            for i, j in pairs[:2]:
+                payload(i, j)
+            s.add("S.1")
+            out.append(s.line())
         # handshakes that cannot agree on a cipher while only ONE side allows "plain": whatever is sent, the routing information in the
         # handshake payload (claims) must not travel in clear text.  Both dial directions, disjoint and empty cipher lists.
         A128, A256, CHA = "1:44160000", "2:43fa0000", "3:43c80000"
@@ -195,7 +229,10 @@ class C02(Property):
             i += 1
         # who sent datagram k to whom: reconstruct
         sent_meta = []
+        nbefore = None
         for o, r in zip(ops, outs):
+            if o == "X.9988":
+                nbefore = len(sent_meta)
             rr = re.sub(r"n(\d+)>", r"n\1>", r)
             m = re.match(r"a\d+\[(.*)\]$", rr)
             if o == "A" and m:
@@ -222,6 +259,9 @@ class C02(Property):
             if k >= len(sent_meta):
                 continue
             osrc, odst = sent_meta[k]
+            if nbefore is not None and k < nbefore and 2 in (osrc, odst):
+                return ("datagram %d (sealed by node %s for node %s under a connection that a later handshake superseded) was still delivered "
+                        "to an interface after the re-handshake") % (k, osrc, odst)
             for dst, src, w in lst:
                 if not (dst == odst and src == osrc):
                     return ("datagram %d (sealed by node %s for node %s) was delivered to the interface of node %d when injected with claimed "
